@@ -104,3 +104,28 @@ func harnessC06Shutdown() {
 	vAssert(cl.closes == closes, "store-not-closed-later")
 	cl.mu.Unlock()
 }
+
+//verif:entry property=C06 tier=both bounds="one publish to TWO async handlers of the same event type (each yields mid-way) with an optional synchronous handler between them; every interleaving within the preemption bound; Wait" cover="waited" preempt_quick=2 preempt_thorough=3 race=on
+func harnessC06TwoAsyncSameType() {
+	bus := New()
+	var mu sync.Mutex
+	finished := 0
+	h := func(e evA) {
+		vYield()
+		mu.Lock()
+		finished++
+		mu.Unlock()
+	}
+	Subscribe(bus, h, Async())
+	if vBool() {
+		Subscribe(bus, func(e evA) { vYield() })
+	}
+	Subscribe(bus, func(e evA) { h(e) }, Async())
+	Publish(bus, evA{N: 1})
+	bus.Wait()
+	mu.Lock()
+	vAssert(finished == 2, "wait-returns-only-after-all-async-work-finished")
+	mu.Unlock()
+	vJoinAll()
+	vCover("waited")
+}
